@@ -21,7 +21,10 @@ CONSTANTS NReaders, B, P, NKeys, MaxWrites, MaxReads, Ord, AllowIterErase,
 
 OrdCode == [r_st |-> "acq", r_k |-> "rlx", r_v |-> "acq", r_st2 |-> "rlx", r_h |-> "acq", r_ek |-> "rlx", r_ev |-> "acq", r_en |-> "acq",
             w_lock |-> "acq", w_k |-> "rlx", w_v |-> "rlx", w_vrel |-> "rel", w_unlock |-> "rel", w_str |-> "rlx", w_strel |-> "rel",
-            w_head |-> "rel", w_link |-> "rlx"]
+            w_head |-> "rel", w_link |-> "rlx",
+            w_fence |-> "rel",     \* release fence after lock_bucket's CAS and after every store of a delete marker ("none" before the fix)
+            r_fence |-> "acq"]     \* acquire fence before every re-validation of the bucket version in try_get_value ("none" before the fix)
+FENCE == <<"fence", 0>>
 
 ThreadsDef == 0 .. NReaders
 Writer == 0
@@ -38,12 +41,14 @@ LocsDef == {ST, HEAD} \cup {KEY(i) : i \in 0 .. B - 1} \cup {VAL(i) : i \in 0 ..
 S0 == [lk |-> 0, cnt |-> 0, mk |-> 0, ver |-> 0]
 InitValDef(x) == IF x = ST THEN S0 ELSE 0
 
-VARIABLES pc, loc, lin, budget, freeExt, w, it, last
-vars == <<pc, loc, lin, budget, freeExt, w, it, last, memvars>>
-mcview == <<pc, loc, lin, budget, freeExt, w, it, memvars>>
+VARIABLES pc, loc, lin, budget, freeExt, w, it, last,
+          gh      \* ghost for the weak-memory runs (constant under SC): the abstract contents after every writer operation, the operation each message
+                  \* of the bucket state belongs to, and the verdict of the happens-before aware read oracle (HbRegular below)
+vars == <<pc, loc, lin, budget, freeExt, w, it, last, gh, memvars>>
+mcview == <<pc, loc, lin, budget, freeExt, w, it, gh, memvars>>
 
 \* reader locals
-L0 == [key |-> 0, st |-> S0, i |-> 0, ext |-> 0, v |-> 0]
+L0 == [key |-> 0, st |-> S0, i |-> 0, ext |-> 0, v |-> 0, lo |-> 1, nxt |-> "idle"]
 \* writer: script of pending stores <<loc, value, order-label>>, then the result to return
 W0 == [script |-> <<>>, r |-> 0, v |-> 0, free |-> {}]
 \* iterator state kept between writer operations: locked? and the state to store at unlock
@@ -56,11 +61,13 @@ Init == /\ MemInit
         /\ budget = [t \in Threads |-> IF t = Writer THEN MaxWrites ELSE MaxReads]
         /\ freeExt = Ext
         /\ w = W0 /\ it = It0
+        /\ gh = [abs |-> << [k \in 1 .. NKeys |-> 0] >>, stq |-> << [q |-> 1, fin |-> TRUE] >>, bad |-> FALSE]
         /\ last = [t |-> -1, k |-> "init", lab |-> "init", v |-> 0, ok |-> 1, n |-> 0]
 
 Goto(t, l) == pc' = [pc EXCEPT ![t] = l]
 Acc(t, k, lab, v, ok) == last' = [t |-> t, k |-> k, lab |-> lab, v |-> v, ok |-> ok, n |-> last.n + 1]    \* n: access counter
 Return(t, r, v) == lin' = MonRet(lin, t, r, v) /\ Goto(t, "idle")
+NG == UNCHANGED gh
 Locked(s) == [s EXCEPT !.lk = 1]
 Unlocked(s) == [s EXCEPT !.lk = 0]
 NewVer(s) == [s EXCEPT !.ver = @ + 1]
@@ -75,22 +82,22 @@ ExtIdx(k) == {j \in 1 .. Len(ExtChain) : Cur(EK(ExtChain[j])) = k}
 
 \* the stores of one writer operation, in program order; st = unlocked state read when the lock was taken
 EmplaceScript(k, st) ==
-  IF ArrIdx(k) # {} \/ ExtIdx(k) # {} THEN [script |-> << <<ST, st, "w_str">> >>, r |-> 0, v |-> 0, free |-> {}]
+  IF ArrIdx(k) # {} \/ ExtIdx(k) # {} THEN [script |-> << <<FENCE, 0, "w_fence">>, <<ST, st, "w_str">> >>, r |-> 0, v |-> 0, free |-> {}]
   ELSE IF st.cnt < B
-    THEN [script |-> << <<KEY(st.cnt), k, "w_k">>, <<VAL(st.cnt), 10 * k, "w_v">>, <<ST, [st EXCEPT !.cnt = @ + 1], "w_unlock">> >>, r |-> 1, v |-> 0, free |-> {}]
+    THEN [script |-> << <<FENCE, 0, "w_fence">>, <<KEY(st.cnt), k, "w_k">>, <<VAL(st.cnt), 10 * k, "w_v">>, <<ST, [st EXCEPT !.cnt = @ + 1], "w_unlock">> >>, r |-> 1, v |-> 0, free |-> {}]
     ELSE LET e == CHOOSE x \in freeExt : TRUE IN
-         [script |-> << <<EK(e), k, "w_k">>, <<EV(e), 10 * k, "w_v">>, <<EN(e), Cur(HEAD), "w_link">>, <<HEAD, e, "w_head">>, <<ST, st, "w_unlock">> >>,
+         [script |-> << <<FENCE, 0, "w_fence">>, <<EK(e), k, "w_k">>, <<EV(e), 10 * k, "w_v">>, <<EN(e), Cur(HEAD), "w_link">>, <<HEAD, e, "w_head">>, <<ST, st, "w_unlock">> >>,
           r |-> 1, v |-> 0, free |-> {}]
 \* removal; `final` = state stored at the unlock, `keep` = TRUE for the iterator (the lock is kept, the final store is deferred)
 EraseStores(k, st) ==
   IF ArrIdx(k) # {}
     THEN LET i == CHOOSE x \in ArrIdx(k) : TRUE  e == Cur(HEAD) ls == Locked(st) IN
          IF e # 0
-           THEN [stores |-> << <<ST, [ls EXCEPT !.mk = i + 1], "w_str">>, <<KEY(i), Cur(EK(e)), "w_k">>, <<VAL(i), Cur(EV(e)), "w_vrel">>,
+           THEN [stores |-> << <<ST, [ls EXCEPT !.mk = i + 1], "w_str">>, <<FENCE, 0, "w_fence">>, <<KEY(i), Cur(EK(e)), "w_k">>, <<VAL(i), Cur(EV(e)), "w_vrel">>,
                                <<ST, NewVer(ls), "w_strel">>, <<HEAD, Cur(EN(e)), "w_head">> >>,
                  final |-> Unlocked(NewVer(NewVer(ls))), bumps |-> 2, free |-> {e}, found |-> TRUE, shape |-> 1]
            ELSE [stores |-> IF i # st.cnt - 1
-                              THEN << <<ST, [ls EXCEPT !.mk = i + 1], "w_str">>, <<KEY(i), Cur(KEY(st.cnt - 1)), "w_k">>, <<VAL(i), Cur(VAL(st.cnt - 1)), "w_vrel">> >>
+                              THEN << <<ST, [ls EXCEPT !.mk = i + 1], "w_str">>, <<FENCE, 0, "w_fence">>, <<KEY(i), Cur(KEY(st.cnt - 1)), "w_k">>, <<VAL(i), Cur(VAL(st.cnt - 1)), "w_vrel">> >>
                               ELSE <<>>,
                  final |-> [NewVer(st) EXCEPT !.cnt = @ - 1], bumps |-> 1, free |-> {}, found |-> TRUE, shape |-> 2]
   ELSE IF ExtIdx(k) # {}
@@ -98,6 +105,15 @@ EraseStores(k, st) ==
              prev == IF j = 1 THEN HEAD ELSE EN(ExtChain[j - 1]) IN
          [stores |-> << <<prev, Cur(EN(e)), "w_link">> >>, final |-> NewVer(st), bumps |-> 1, free |-> {e}, found |-> TRUE, shape |-> 3]
   ELSE [stores |-> <<>>, final |-> st, bumps |-> 0, free |-> {}, found |-> FALSE, shape |-> 0]
+
+\* ---------------------------------------------------------------- ghost of the weak-memory oracle
+LastOf(q) == q[Len(q)]
+GhOp(a) == gh' = IF Weak THEN [gh EXCEPT !.abs = Append(@, a)] ELSE gh                 \* a writer operation starts: its post-state gets the next index
+GhSt(fin) == gh' = IF Weak THEN [gh EXCEPT !.stq = Append(@, [q |-> Len(gh.abs), fin |-> fin])] ELSE gh     \* a store to the bucket state
+\* abstract states the reader must not go behind: everything completed before the newest bucket-state message in its view
+GhLo(t) == IF Weak THEN LET m == gh.stq[cur[t][ST]] IN IF m.fin THEN m.q ELSE m.q - 1 ELSE 1
+GhRet(t, r, v) == gh' = IF Weak /\ ~\E j \in loc[t].lo .. Len(gh.abs) : gh.abs[j][loc[t].key] = (IF r = 1 THEN v ELSE 0)
+                          THEN [gh EXCEPT !.bad = TRUE] ELSE gh
 
 \* ---------------------------------------------------------------- writer operations
 WriterIdle == pc[Writer] = "idle" /\ budget[Writer] > 0
@@ -107,6 +123,7 @@ StartEmplace == /\ WriterIdle /\ ~it.on
                 /\ \E k \in 1 .. NKeys :
                      /\ (Cur(ST).cnt = B /\ ArrIdx(k) = {} /\ ExtIdx(k) = {}) => freeExt # {}      \* no grow in this model
                      /\ lin' = MonCall(lin, Writer, "emplace", k, 10 * k)
+                     /\ GhOp([LastOf(gh.abs) EXCEPT ![k] = IF @ = 0 THEN 10 * k ELSE @])
                      /\ LET st == Cur(ST) sc == EmplaceScript(k, st) IN
                         /\ w' = [sc EXCEPT !.script = << <<ST, Locked(st), "w_lock">> >> \o @]
                         /\ freeExt' = IF st.cnt = B /\ sc.r = 1 THEN freeExt \ {CHOOSE x \in freeExt : TRUE} ELSE freeExt
@@ -115,6 +132,7 @@ StartEmplace == /\ WriterIdle /\ ~it.on
 StartErase == /\ WriterIdle /\ ~it.on
               /\ \E k \in 1 .. NKeys :
                    /\ lin' = MonCall(lin, Writer, "erase", k, 0)
+                   /\ GhOp([LastOf(gh.abs) EXCEPT ![k] = 0])
                    /\ LET st == Cur(ST) es == EraseStores(k, st) IN
                       w' = [script |-> << <<ST, Locked(st), "w_lock">> >> \o es.stores \o << <<ST, es.final, "w_unlock">> >>,
                             r |-> IF es.found THEN 1 ELSE 0, v |-> 0, free |-> es.free]
@@ -125,6 +143,7 @@ StartIterErase == /\ AllowIterErase /\ WriterIdle /\ ~it.on
                   /\ \E k \in 1 .. NKeys :
                        /\ (ArrIdx(k) # {} \/ ExtIdx(k) # {})
                        /\ lin' = MonCall(lin, Writer, "erase", k, 0)
+                       /\ GhOp([LastOf(gh.abs) EXCEPT ![k] = 0])
                        /\ LET st == Cur(ST) es == EraseStores(k, st) IN
                           /\ w' = [script |-> << <<ST, Locked(st), "w_lock">> >> \o es.stores
                                                 \o (IF es.shape = 1 THEN << <<ST, Locked(es.final), "w_strel">> >>
@@ -139,7 +158,7 @@ StartIterErase == /\ AllowIterErase /\ WriterIdle /\ ~it.on
 IterReset == /\ pc[Writer] = "idle" /\ it.on
              /\ Store(Writer, ST, it.st, Ord["w_unlock"])
              /\ Acc(Writer, "st", "w_unlock", 0, 1)
-             /\ it' = It0
+             /\ it' = It0 /\ GhSt(TRUE)
              /\ UNCHANGED <<pc, loc, lin, budget, freeExt, w>>
 \* perform the next store of the script
 w_run == /\ pc[Writer] = "w_run"
@@ -147,11 +166,14 @@ w_run == /\ pc[Writer] = "w_run"
               THEN /\ Return(Writer, w.r, w.v)
                    /\ freeExt' = freeExt \cup w.free          \* free_extension_item: back to the pool
                    /\ w' = W0
-                   /\ UNCHANGED <<memvars, last>>
+                   /\ UNCHANGED <<memvars, last, gh>>
               ELSE LET s == Head(w.script) IN
-                   /\ IF s[3] = "w_lock" THEN Rmw(Writer, s[1], s[2], Ord["w_lock"]) ELSE Store(Writer, s[1], s[2], Ord[s[3]])
-                   /\ Acc(Writer, "st", s[3], 0, 1)
+                   /\ IF s[3] = "w_lock" THEN Rmw(Writer, s[1], s[2], Ord["w_lock"])
+                      ELSE IF s[1] = FENCE THEN Fence(Writer, Ord["w_fence"])
+                      ELSE Store(Writer, s[1], s[2], Ord[s[3]])
+                   /\ Acc(Writer, IF s[1] = FENCE THEN "fence" ELSE "st", s[3], 0, 1)
                    /\ w' = [w EXCEPT !.script = Tail(@)]
+                   /\ IF s[1] = ST THEN GhSt(Len(w.script) = 1) ELSE UNCHANGED gh
                    /\ UNCHANGED <<pc, lin, freeExt>>
          /\ UNCHANGED <<loc, budget, it>>
 
@@ -159,15 +181,15 @@ w_run == /\ pc[Writer] = "w_run"
 StartGet(t) == /\ t # Writer /\ pc[t] = "idle" /\ budget[t] > 0
                /\ budget' = [budget EXCEPT ![t] = @ - 1]
                /\ \E k \in 1 .. NKeys : /\ lin' = MonCall(lin, t, "xget", k, 0)
-                                        /\ loc' = [loc EXCEPT ![t] = [L0 EXCEPT !.key = k]]
+                                        /\ loc' = [loc EXCEPT ![t] = [L0 EXCEPT !.key = k, !.lo = GhLo(t)]]
                /\ Goto(t, "r_st") /\ Acc(t, "call", "xget", 0, 1)
-               /\ UNCHANGED <<freeExt, w, it, memvars>>
+               /\ UNCHANGED <<freeExt, w, it, gh, memvars>>
 RU == UNCHANGED <<budget, freeExt, w, it>>
 r_st(t) == /\ pc[t] = "r_st"
            /\ \E i \in Readable(t, ST, Ord["r_st"]) :
                 /\ Load(t, ST, Ord["r_st"], i) /\ Acc(t, "ld", "r_st", 0, 1)
                 /\ loc' = [loc EXCEPT ![t].st = ValAt(ST, i), ![t].i = 0, ![t].ext = 0]
-           /\ Goto(t, "r_k") /\ UNCHANGED lin /\ RU
+           /\ Goto(t, "r_k") /\ UNCHANGED lin /\ RU /\ NG
 r_k(t) == /\ pc[t] = "r_k"
           /\ IF loc[t].i >= loc[t].st.cnt
                THEN /\ Goto(t, "r_h") /\ UNCHANGED <<loc, last, memvars>>
@@ -176,67 +198,76 @@ r_k(t) == /\ pc[t] = "r_k"
                       /\ IF ValAt(KEY(loc[t].i), j) = loc[t].key
                            THEN Goto(t, "r_v") /\ UNCHANGED loc
                            ELSE loc' = [loc EXCEPT ![t].i = @ + 1] /\ UNCHANGED pc
-          /\ UNCHANGED lin /\ RU
+          /\ UNCHANGED lin /\ RU /\ NG
 r_v(t) == /\ pc[t] = "r_v"
           /\ \E j \in Readable(t, VAL(loc[t].i), Ord["r_v"]) :
                /\ Load(t, VAL(loc[t].i), Ord["r_v"], j) /\ Acc(t, "ld", "r_v", ValAt(VAL(loc[t].i), j), 1)
-               /\ loc' = [loc EXCEPT ![t].v = ValAt(VAL(loc[t].i), j)]
-          /\ Goto(t, "r_st2") /\ UNCHANGED lin /\ RU
+               /\ loc' = [loc EXCEPT ![t].v = ValAt(VAL(loc[t].i), j), ![t].nxt = "r_st2"]
+          /\ Goto(t, "r_fence") /\ UNCHANGED lin /\ RU /\ NG
+\* the acquire fence in front of every re-validation of the version
+r_fence(t) == /\ pc[t] = "r_fence"
+              /\ Fence(t, Ord["r_fence"]) /\ Acc(t, "fence", "r_fence", 0, 1)
+              /\ Goto(t, loc[t].nxt) /\ UNCHANGED <<loc, lin>> /\ RU /\ NG
 r_st2(t) == /\ pc[t] = "r_st2"
             /\ \E j \in Readable(t, ST, Ord["r_st2"]) :
                  LET s2 == ValAt(ST, j) IN
                  /\ Load(t, ST, Ord["r_st2"], j) /\ Acc(t, "ld", "r_st2", 0, 1)
-                 /\ IF s2.ver # loc[t].st.ver THEN Goto(t, "r_st") /\ UNCHANGED <<loc, lin>>
-                    ELSE IF MarkerCheck /\ s2.mk = loc[t].i + 1 THEN /\ loc' = [loc EXCEPT ![t].i = @ + 1] /\ Goto(t, "r_k") /\ UNCHANGED lin
-                    ELSE Return(t, 1, loc[t].v) /\ UNCHANGED loc
+                 /\ IF s2.ver # loc[t].st.ver THEN Goto(t, "r_st") /\ UNCHANGED <<loc, lin>> /\ NG
+                    ELSE IF MarkerCheck /\ s2.mk = loc[t].i + 1 THEN /\ loc' = [loc EXCEPT ![t].i = @ + 1] /\ Goto(t, "r_k") /\ UNCHANGED lin /\ NG
+                    ELSE Return(t, 1, loc[t].v) /\ GhRet(t, 1, loc[t].v) /\ UNCHANGED loc
             /\ RU
 r_h(t) == /\ pc[t] = "r_h"
           /\ \E j \in Readable(t, HEAD, Ord["r_h"]) :
                /\ Load(t, HEAD, Ord["r_h"], j) /\ Acc(t, "ld", "r_h", ValAt(HEAD, j), 1)
                /\ loc' = [loc EXCEPT ![t].ext = ValAt(HEAD, j)]
-          /\ Goto(t, "r_ek") /\ UNCHANGED lin /\ RU
+          /\ Goto(t, "r_ek") /\ UNCHANGED lin /\ RU /\ NG
 r_ek(t) == /\ pc[t] = "r_ek"
            /\ IF loc[t].ext = 0
-                THEN Goto(t, "r_end") /\ UNCHANGED <<loc, last, memvars>>
+                THEN Goto(t, "r_fence") /\ loc' = [loc EXCEPT ![t].nxt = "r_end"] /\ UNCHANGED <<last, memvars>>
                 ELSE \E j \in Readable(t, EK(loc[t].ext), Ord["r_ek"]) :
                        /\ Load(t, EK(loc[t].ext), Ord["r_ek"], j) /\ Acc(t, "ld", "r_ek", ValAt(EK(loc[t].ext), j), 1)
                        /\ Goto(t, IF ValAt(EK(loc[t].ext), j) = loc[t].key THEN "r_ev" ELSE "r_en") /\ UNCHANGED loc
-           /\ UNCHANGED lin /\ RU
+           /\ UNCHANGED lin /\ RU /\ NG
 r_ev(t) == /\ pc[t] = "r_ev"
            /\ \E j \in Readable(t, EV(loc[t].ext), Ord["r_ev"]) :
                 /\ Load(t, EV(loc[t].ext), Ord["r_ev"], j) /\ Acc(t, "ld", "r_ev", ValAt(EV(loc[t].ext), j), 1)
-                /\ loc' = [loc EXCEPT ![t].v = ValAt(EV(loc[t].ext), j)]
-           /\ Goto(t, "r_st3") /\ UNCHANGED lin /\ RU
+                /\ loc' = [loc EXCEPT ![t].v = ValAt(EV(loc[t].ext), j), ![t].nxt = "r_st3"]
+           /\ Goto(t, "r_fence") /\ UNCHANGED lin /\ RU /\ NG
 r_st3(t) == /\ pc[t] = "r_st3"
             /\ \E j \in Readable(t, ST, Ord["r_st2"]) :
                  /\ Load(t, ST, Ord["r_st2"], j) /\ Acc(t, "ld", "r_st2", 0, 1)
-                 /\ IF ValAt(ST, j).ver # loc[t].st.ver THEN Goto(t, "r_st") /\ UNCHANGED lin
-                    ELSE Return(t, 1, loc[t].v)
+                 /\ IF ValAt(ST, j).ver # loc[t].st.ver THEN Goto(t, "r_st") /\ UNCHANGED lin /\ NG
+                    ELSE Return(t, 1, loc[t].v) /\ GhRet(t, 1, loc[t].v)
             /\ UNCHANGED loc /\ RU
 r_en(t) == /\ pc[t] = "r_en"
            /\ \E j \in Readable(t, EN(loc[t].ext), Ord["r_en"]) :
                 /\ Load(t, EN(loc[t].ext), Ord["r_en"], j) /\ Acc(t, "ld", "r_en", ValAt(EN(loc[t].ext), j), 1)
-                /\ loc' = [loc EXCEPT ![t].ext = ValAt(EN(loc[t].ext), j)]
-           /\ Goto(t, "r_st4") /\ UNCHANGED lin /\ RU
+                /\ loc' = [loc EXCEPT ![t].ext = ValAt(EN(loc[t].ext), j), ![t].nxt = "r_st4"]
+           /\ Goto(t, "r_fence") /\ UNCHANGED lin /\ RU /\ NG
 r_st4(t) == /\ pc[t] = "r_st4"
             /\ \E j \in Readable(t, ST, Ord["r_st2"]) :
                  /\ Load(t, ST, Ord["r_st2"], j) /\ Acc(t, "ld", "r_st2", 0, 1)
                  /\ Goto(t, IF ValAt(ST, j).ver # loc[t].st.ver THEN "r_st" ELSE "r_ek")
-            /\ UNCHANGED <<loc, lin>> /\ RU
+            /\ UNCHANGED <<loc, lin>> /\ RU /\ NG
 r_end(t) == /\ pc[t] = "r_end"
             /\ IF FinalCheck
                  THEN \E j \in Readable(t, ST, Ord["r_st2"]) :
                         /\ Load(t, ST, Ord["r_st2"], j) /\ Acc(t, "ld", "r_st2", 0, 1)
-                        /\ IF ValAt(ST, j).ver # loc[t].st.ver THEN Goto(t, "r_st") /\ UNCHANGED lin
-                           ELSE Return(t, 0, 0)
-                 ELSE Return(t, 0, 0) /\ UNCHANGED <<last, memvars>>
+                        /\ IF ValAt(ST, j).ver # loc[t].st.ver THEN Goto(t, "r_st") /\ UNCHANGED lin /\ NG
+                           ELSE Return(t, 0, 0) /\ GhRet(t, 0, 0)
+                 ELSE Return(t, 0, 0) /\ GhRet(t, 0, 0) /\ UNCHANGED <<last, memvars>>
             /\ UNCHANGED loc /\ RU
 
-ReaderStep(t) == StartGet(t) \/ r_st(t) \/ r_k(t) \/ r_v(t) \/ r_st2(t) \/ r_h(t) \/ r_ek(t) \/ r_ev(t) \/ r_st3(t) \/ r_en(t) \/ r_st4(t) \/ r_end(t)
+ReaderStep(t) == StartGet(t) \/ r_fence(t) \/ r_st(t) \/ r_k(t) \/ r_v(t) \/ r_st2(t) \/ r_h(t) \/ r_ek(t) \/ r_ev(t) \/ r_st3(t) \/ r_en(t) \/ r_st4(t) \/ r_end(t)
 Next == StartEmplace \/ StartErase \/ StartIterErase \/ IterReset \/ w_run \/ \E t \in Threads \ {Writer} : ReaderStep(t)
 Spec == Init /\ [][Next]_vars
 
 \* C10 / C11: every history (writer operations, lock-free reads) is linearizable w.r.t. abs/SetMap:
 \* a read returns absent or a value the key held at some instant of the call, never a value of another key
 Linearizable == lin # {}
+\* weak-memory runs: real-time order means nothing between threads that have not synchronized, so the read oracle is happens-before aware:
+\* a read answers with the content the key had after SOME writer operation that is not older than what the reader had already seen of the
+\* bucket state when it was called (everything completed before the newest state message in its view) - in particular a key that was present
+\* in all of these states is found, and a value never belongs to another key
+HbRegular == ~gh.bad
 =============================================================================
